@@ -499,6 +499,11 @@ def oracle_c07(tables, seed, tier, deep):
     exp_good = [unhxb(alone[str(i)][3:]) + b"\n" for i in range(3)]
     sops = []
     sample = lines[:: max(1, len(lines) // (400 if big else 80))]
+    # an object cut exactly where a value, a member or an element is expected (after ':', '[', ',' and '{'): the text that follows
+    # on the NEXT lines would complete it - a reader that joins lines must not swallow them
+    src = good[1]
+    cuts = [j + 1 for j, ch in enumerate(src) if ch in b":[,{"]
+    sample = sample + [src[:j] for j in cuts[:: max(1, len(cuts) // (60 if big else 24))]] + [b'{"attr":', b'{"a":[', b'{"a":[1,', b'{"a":{"b":1,', b'{', b'[', b'{"a":"x']
     for i, b in enumerate(sample):
         if b"\n" in b or b"\r" in b:
             continue
@@ -718,6 +723,11 @@ def replay(pid, r):
     if "soak_n" in r:
         res = go_exec([("s", ["soak", r["cfg"], str(r["soak_n"])])], timeout=1800).get("s", "noanswer")
         return {"soak": res[:300], "violation": not res.startswith("ok ")}
+    if "multifile_hex" in r:
+        i = r["multifile_index"]
+        ses = go_exec([("f", ["files", r["cfg"], r["multifile_kinds"]] + r["multifile_hex"])]).get("f", "noanswer").split(" ")
+        alone = go_exec([("f", ["files", r["cfg"], r["multifile_kinds"][i], r["multifile_hex"][i]])]).get("f", "noanswer")
+        return {"in_session": (ses[i] if i < len(ses) else "noanswer")[:600], "alone": alone[:600], "violation": (ses[i] if i < len(ses) else None) != alone}
     if "accum_shapes_hex" in r:
         ops = []
         for i, h_ in enumerate(r["accum_shapes_hex"]):
@@ -1209,7 +1219,11 @@ def mixed_lines(rng, n):
     for _ in range(n):
         k = rng.below(10)
         if k < 5:
-            out.append(to_json(G(rng.fork(), exotic=rng.chance(1, 3)).line()).encode())
+            l = to_json(G(rng.fork(), exotic=rng.chance(1, 3)).line()).encode()
+            if len(l) > 60000:
+                # longer than the reader's line limit: a run stops there with an error (allowed, C07) - not what these streams are about
+                l = to_json(G(rng.fork()).line()).encode()
+            out.append(l)
         elif k < 7:
             out.append(to_json(other_line(rng)).encode())
         elif k == 7:
@@ -3429,12 +3443,62 @@ def accumulation_violations(pid, tables, seed, tier, deep):
     return viol, len(a["shapes"]) * (a["repeats"] + a["probes"]) * a["cfgs"]
 
 
+_MULTIFILE = {}
+
+
+def multifile_records(seed, tier, deep):
+    """several input FILES through ProcessMongoLogFile one after the other in ONE process under ONE configuration (what Atlas
+    mode does with the downloaded logs), each also alone in a fresh process: a file must come out the same wherever it stands
+    in the sequence (state installed, wiped or left behind per FILE - a deferred clean-up, a reused buffer, a batch slot)."""
+    key = (seed, tier, deep)
+    if key in _MULTIFILE:
+        return _MULTIFILE[key]
+    rng = SplitMix(seed ^ 0xF11E5)
+    big = tier == "thorough" or deep
+    cfgs = [Cfg(), Cfg(n=True, b=True, i=True, w=True), Cfg(enc=3), Cfg(enc=3, w=True, n=True), Cfg(eager=("",)), Cfg(re="^a$")]
+    recs = []
+    for c in cfgs:
+        for rep in range(3 if big else 1):
+            A, B, C = (mixed_lines(rng, 2 + rng.below(6)) for _ in range(3))
+            files = [b"\n".join(A) + b"\n", b"\n".join(B) + b"\n", b"\n".join(A) + b"\n", b"\n".join(C)]
+            kinds = "pgpg" if rep % 2 == 0 else "gppp"
+            ses = go_exec([("f", ["files", c.s(), kinds] + [hx(d) for d in files])]).get("f", "noanswer").split(" ")
+            for i, d in enumerate(files):
+                alone = go_exec([("f", ["files", c.s(), kinds[i], hx(d)])]).get("f", "noanswer")
+                recs.append({"cfg": c, "cfg_str": c.s(), "index": i, "kinds": kinds, "files_hex": [hx(x) for x in files], "session": ses[i] if i < len(ses) else "noanswer", "alone": alone})
+    _MULTIFILE[key] = recs
+    return recs
+
+
+def multifile_violations(pid, seed, tier, deep):
+    scope = HISTORY_SCOPE[pid]
+    viol = []
+    recs = multifile_records(seed, tier, deep)
+    for r in recs:
+        if not scope(r["cfg"]) or r["session"] == r["alone"]:
+            continue
+        def txt(x):
+            st, _, h_ = x.partition(":")
+            try:
+                return st + ": " + unhxb(h_).decode("utf-8", "replace")[:1200]
+            except Exception:
+                return x[:300]
+        viol.append({"site": "history:file-%s-of-a-run" % ("first" if r["index"] == 0 else "later"), "why": HISTORY_WHY[pid], "cfg": r["cfg_str"],
+                     "multifile_hex": r["files_hex"], "multifile_kinds": r["kinds"], "multifile_index": r["index"],
+                     "input": unhxb(r["files_hex"][r["index"]]).decode("utf-8", "replace")[:1500],
+                     "in_session": txt(r["session"]), "alone": txt(r["alone"]),
+                     "detail": "file %d of %d processed one after the other in one process comes out differently than the same file processed alone" % (r["index"] + 1, len(r["files_hex"]))})
+    return viol, len(recs)
+
+
 def with_history(pid, fn):
     def wrapped(tables, seed, tier, deep):
         r = fn(tables, seed, tier, deep)
         v, n, h = history_violations(pid, tables, seed, tier, deep)
         v2, n2 = accumulation_violations(pid, tables, seed, tier, deep)
-        v = v + v2
+        v3, n3 = multifile_violations(pid, seed, tier, deep)
+        v = v + v2 + v3
+        r["stats"]["summary"]["files_in_one_run"] = n3
         r["stats"]["summary"]["accumulation_lines"] = n2
         if v:
             r["violations"] = result(r["violations"] + v, 0, 0, "", {}, [])["violations"]
